@@ -248,12 +248,80 @@ def replay_rhs(fi, opt, lhs) -> bool:
     return True
 
 
+EXTRAS = [None, 'e => m1', 'm2 => z', 'e => FAM']
+
+
+def fam_chain_cases():
+    for q in ('succeed', 'fail', 'finish', 'start'):
+        for mode in ('all', 'any'):
+            for opt in ('', '?'):
+                for fi in (1, 2):
+                    for extra in EXTRAS:
+                        for left in ('a', 'a & b'):
+                            yield q, mode, opt, fi, extra, left
+
+
+def _fam_chain_texts(q, mode, opt, extra, left):
+    mid = f'FAM:{q}-{mode}{opt}'
+    tail = ('\n' + extra) if extra else ''
+    return (f'{left} => {mid} => x{tail}',
+            f'{left} => {mid}\n{mid} => x{tail}')
+
+
+def smt_fam_chain(slc):
+    """A family in the middle of a chain: chain vs separate pairs."""
+    from vf.smtx import Session
+    ses = Session()
+    n = 0
+    for case in fam_chain_cases():
+        q, mode, opt, fi, extra, left = case
+        fam = {'FAM': list(FAMS[fi])}
+        chain, pairs = _fam_chain_texts(q, mode, opt, extra, left)
+        a, b = parse(chain, fam), parse(pairs, fam)
+        n += 1
+        call = {'fn': 'replay_fam_chain', 'args': list(case)}
+        if (a is None) != (b is None):
+            return ses.result('sat', message=f'{chain!r} accepted / rejected '
+                              'unlike its pairs form', call=call, programs=n)
+        if a is None:
+            continue
+        if set(a[0]) != set(b[0]) or a[1] != b[1]:
+            return ses.result(
+                'sat', message=f'{chain!r} vs pairs: {a} / {b}', call=call,
+                programs=n)
+        for task in a[0]:
+            env = {}
+            r, _ = ses.check(formula(a[0][task], env)
+                             != formula(b[0][task], env),
+                             label=f'{chain} / {task}')
+            if r != 'unsat':
+                return ses.result(
+                    'sat' if r == 'sat' else 'unknown',
+                    message=f'{chain!r}: {task} <- {a[0][task]} vs '
+                    f'{b[0][task]}', call=call, programs=n)
+    return ses.result('unsat', programs=n)
+
+
+def replay_fam_chain(q, mode, opt, fi, extra, left) -> bool:
+    fam = {'FAM': list(FAMS[fi])}
+    chain, pairs = _fam_chain_texts(q, mode, opt, extra, left)
+    a, b = parse(chain, fam), parse(pairs, fam)
+    if (a is None) != (b is None):
+        return False
+    if a is None:
+        return True
+    return {k: sorted(v) for k, v in a[0].items()} == {
+        k: sorted(v) for k, v in b[0].items()} and a[1] == b[1]
+
+
 def OBLIGATIONS(tier):
     big = tier == 'thorough'
     t = 1200 if big else 170
     return [Ob(f'smt_lhs[{q}]', 'smt_lhs', kind='smt', timeout=t, twin=False,
                slice={'q': q}) for q in QUALS] + [
-        Ob('smt_rhs', 'smt_rhs', kind='smt', timeout=t, twin=False)]
+        Ob('smt_rhs', 'smt_rhs', kind='smt', timeout=t, twin=False),
+        Ob('smt_fam_chain', 'smt_fam_chain', kind='smt', timeout=t,
+           twin=False)]
 
 
 def VALIDATE():
